@@ -697,7 +697,8 @@ func (s *ScopedKeyManager) DeriveFromKeyPathCache(
 	}
 
 	watchOnly := s.rootManager.WatchOnly()
-	private := !s.rootManager.IsLocked() && !watchOnly
+	private := !s.rootManager.IsLocked() && !watchOnly &&
+		acctInfo.acctKeyPriv != nil
 
 	// Now that we have the account information, we can derive the key
 	// directly.
